@@ -157,7 +157,7 @@ class C46(hc.PProp):
                 if not mine:
                     V.append(Violation('C46:forwarded-without-helper-approval', 'request %s (%s) was forwarded but the helper never approved exactly these credentials before that' % (rid, cred[0])))
                 elif mine[-1][2] != 'OK':
-                    V.append(Violation('C46:forwarded-after-helper-rejection', 'request %s (%s) was forwarded although the latest helper verdict for its credentials was ERR' % (rid, cred[0])))
+                    V.append(Violation('C46:forwarded-after-helper-rejection', 'request %s (%s) was forwarded although the latest helper verdict for its credentials was ERR' % (rid, cred[0]) + (' [fwd_t=%d all=%r]' % (t, [(v[0], v[2]) for v in verdicts if v[1] == line]) if os.environ.get('VERIF_C46_DEBUG') else '')))
                 elif (t - mine[-1][0]) / 1e6 > plan['ttl'] + 2:
                     V.append(Violation('C46:forwarded-on-expired-approval', 'request %s (%s) was forwarded %.1f s after the last helper approval; credentialsttl %d s' % (rid, cred[0], (t - mine[-1][0]) / 1e6, plan['ttl'])))
             else:
